@@ -12,23 +12,25 @@ bind, session, message/presence/iq with any from/to, stream close) plus `deliver
 its i-th outstanding reply" — in any order, including stanzas before authentication and elements sent while
 a checker reply is still outstanding.  No hypothesis on the script.
 
-What is proved, exactly (no hypothesis on the scripts; `'/' ∉ cfg.domain` is the only configuration assumption, and
-only for the literal forms):
-* `auth_only_if_checker_approved` — a non-empty jid belongs to a user name `u` that is well-formed (non-empty, no '/',
-  no '@': the server's own guard, repo commit f6325af) and whose credential the checker approved;
-  `auth_only_if_checker_approved_literal`: it is literally `u@domain` or `u@domain/resource`.
-  `auth_only_if_getPassword_approves`: the same against what `getPassword` approves, for `getPassword`-only checkers.
-  A PLAIN / DIGEST-MD5 authorization identity is ignored.
+What is proved, exactly.  `Ev.sameRead e` = element `e` arriving in the same TCP read as the previous element of that
+connection; the server processes such elements even after it has closed the stream on an earlier element of the read
+(finding C16:processing-after-disconnect, fixes/C16-ignore-input-after-disconnect.diff).
+FOR EVERY SCRIPT (including `sameRead`, every interleaving of any number of connections):
 * `needs_auth_only_authenticated` (+ `routes_`/`bind_only_authenticated`): nothing is bound, routed or answered before
   an authentication record of that connection.
-* `from_is_authenticated_jid`, `cannot_spoof`, `replies_addressed_to_sender` (every server state), `cannot_spoof_approved`,
-  `cannot_spoof_literal` (every script): the `from` of a routed/delivered stanza is the sending connection's own jid or
-  its bare form, literally `u@domain[/resource]` of its approved user — for every interleaving of any number of
-  connections; comparison is exact (another case, another resource, another connection of the same user: dropped).
-* `tables_reference_open_connections`, `never_routes_to_closed_connection`: in every reachable state the routing
-  tables reference open connections only (repo commit c3084c3), so no write ever goes to a connection that is gone.
-* `Out.ub` remains in the model where `onSasl2Authenticated()` would read an unset `sasl2AuthRequest`; since repo commit
-  e17a168 no explored script reaches it (not proved unreachable).
+* `from_is_authenticated_jid`, `cannot_spoof`, `replies_addressed_to_sender` (every server state): the `from` of a
+  routed/delivered stanza is the sending connection's own jid or its bare form; comparison is exact.
+FOR SCRIPTS WITHOUT `sameRead` (`*_partial`; the full statements are believed true today but not proved, and become
+provable the same way once the server ignores input after it has closed the stream):
+* `auth_only_if_checker_approved_partial` / `_literal_partial` / `auth_only_if_getPassword_approves_partial`: a non-empty
+  jid is literally `u@domain[/resource]` for a well-formed user name `u` (non-empty, no '/', no '@') whose credential the
+  checker approved ('/' ∉ domain assumed for the literal form); a PLAIN / DIGEST-MD5 authorization identity is ignored.
+* `cannot_spoof_approved_partial`, `cannot_spoof_literal_partial`.
+* `tables_reference_open_connections_partial`, `never_routes_to_closed_connection_partial`: the routing tables
+  reference open connections only.  FALSE with `sameRead` (`C16_defect_bind_after_disconnect`): a bind processed after
+  the server closed the stream registers a connection that is about to be deleted.
+* `Out.ub`: a write through such an entry (real server: SIGSEGV), and `onSasl2Authenticated()` with an unset request
+  (no explored script reaches the latter).
 * Out of scope: server-to-server (`QXmppIncomingServer`/`QXmppOutgoingServer`, dialback) — the modelled server has no
   S2S listener, stanzas for other domains are not routed; server extensions; TLS; stringprep / case folding of JIDs.
 
@@ -41,31 +43,32 @@ namespace Qx.C16
 
 /-! ## 1. who a connection is accepted as -/
 
-/-- **auth_only_if_checker_approved.**  For every checker, script and connection `c`: if the server-side jid of
+/-- **auth_only_if_checker_approved (partial).**  FULL STATEMENT: for every script.  PROVED for scripts in which
+every element is read on its own (no `Ev.sameRead`).  For every checker, such script and connection `c`: if the server-side jid of
 `c` is non-empty then it is derived (`JidOf`: `u@domain`, or that followed by "/resource") from a user name `u` that is
 well-formed and for which `c` itself has sent a credential that the checker approves (`check u p = ok` for a PLAIN
 pair, resp. a DIGEST-MD5 response computed from exactly `digestOf u`).  ANONYMOUS never sets a jid. -/
-theorem auth_only_if_checker_approved (cfg : Cfg) (ops : List (Nat × Ev)) (c : Nat) :
+theorem auth_only_if_checker_approved_partial (cfg : Cfg) (ops : List (Nat × Ev)) (hns : NoSameRead ops) (c : Nat) :
     ((run cfg init ops).1.conns c).jid ≠ [] →
       ∃ u, Approved cfg ops c u ∧ ¬ badName u ∧ JidOf cfg u ((run cfg init ops).1.conns c).jid := by
-  have h := servInv_run cfg ops [] init (servInv_init cfg)
+  have h := servInv_run cfg ops [] init (servInv_init cfg) hns
   simp only [List.nil_append] at h
   intro hj
   obtain ⟨u, ⟨hu, hgood⟩, hjid⟩ := (h c).jid_ok hj
   exact ⟨u, hu, hgood, hjid⟩
 
-/-- **auth_only_if_checker_approved, for a checker written the documented way** (only `getPassword()`; the
+/-- **auth_only_if_checker_approved, for a checker written the documented way (partial: scripts without `sameRead`)** (only `getPassword()`; the
 library's default `checkPassword()` / `getDigest()` do the rest): a non-empty jid is `u@domain[/resource]` for a
 user `u` for which the connection itself sent the PLAIN pair (u, p) with `getPassword u = NoError p`, or a
 DIGEST-MD5 response computed from MD5(u:domain:p) for that `p`.  In particular a user for whom `getPassword`
 reports an error (unknown, rejected, temporarily failing) is never accepted — not with the empty password either. -/
-theorem auth_only_if_getPassword_approves (domain : List Char) (gp : List Char → PwRes)
-    (md5 : List Char → List Char → List Char) (ops : List (Nat × Ev)) (c : Nat) :
+theorem auth_only_if_getPassword_approves_partial (domain : List Char) (gp : List Char → PwRes)
+    (md5 : List Char → List Char → List Char) (ops : List (Nat × Ev)) (hns : NoSameRead ops) (c : Nat) :
     ((run (Cfg.ofGetPassword domain gp md5) init ops).1.conns c).jid ≠ [] →
       ∃ u, (∃ ev, (c, ev) ∈ ops ∧ GpApproves gp md5 ev u) ∧ ¬ badName u ∧
         JidOf (Cfg.ofGetPassword domain gp md5) u ((run (Cfg.ofGetPassword domain gp md5) init ops).1.conns c).jid := by
   intro hj
-  obtain ⟨u, ⟨ev, hm, ha⟩, hgood, hjid⟩ := auth_only_if_checker_approved (Cfg.ofGetPassword domain gp md5) ops c hj
+  obtain ⟨u, ⟨ev, hm, ha⟩, hgood, hjid⟩ := auth_only_if_checker_approved_partial (Cfg.ofGetPassword domain gp md5) ops hns c hj
   exact ⟨u, ⟨ev, hm, gpApproves_of_approves domain gp md5 ev u ha⟩, hgood, hjid⟩
 
 /-- the resource part never eats into the user: when neither the approved user name nor the domain contains
@@ -80,13 +83,14 @@ theorem jidOf_plain (cfg : Cfg) (u j : List Char) (h : JidOf cfg u j) (hu : '/' 
 def CleanJid (cfg : Cfg) (u j : List Char) : Prop :=
   j = mkBare u cfg.domain ∨ ∃ r, j = mkBare u cfg.domain ++ '/' :: r
 
-/-- **auth_only_if_checker_approved, literal form.**  The jid is literally `u@domain` or `u@domain/resource` for a
+/-- **auth_only_if_checker_approved, literal form (partial: scripts without `sameRead`).**  The jid is literally `u@domain` or `u@domain/resource` for a
 well-formed, approved `u` (the configured domain is assumed to contain no '/'). -/
-theorem auth_only_if_checker_approved_literal (cfg : Cfg) (hdom : '/' ∉ cfg.domain) (ops : List (Nat × Ev)) (c : Nat) :
+theorem auth_only_if_checker_approved_literal_partial (cfg : Cfg) (hdom : '/' ∉ cfg.domain) (ops : List (Nat × Ev))
+    (hns : NoSameRead ops) (c : Nat) :
     ((run cfg init ops).1.conns c).jid ≠ [] →
       ∃ u, Approved cfg ops c u ∧ ¬ badName u ∧ CleanJid cfg u ((run cfg init ops).1.conns c).jid := by
   intro hj
-  obtain ⟨u, hu, hgood, hjid⟩ := auth_only_if_checker_approved cfg ops c hj
+  obtain ⟨u, hu, hgood, hjid⟩ := auth_only_if_checker_approved_partial cfg ops hns c hj
   exact ⟨u, hu, hgood, jidOf_plain cfg u _ hjid (not_slash_mkBare u cfg.domain hgood hdom)⟩
 
 /-! ## 2. nothing is bound, routed or answered before authentication -/
@@ -144,14 +148,14 @@ theorem replies_addressed_to_sender (cfg : Cfg) (s : Server) (op : Nat × Ev) (s
   obtain ⟨h1, st0, f0, cond0, h2, h3⟩ := (applyOut_stanza_origin cfg s' op.1 co _ hs').2.2 _ _ _ rfl
   injection h3 with _ _ hto _
   rw [h2] at hco
-  have hem := connStep_emit cfg (freshRes s.gen) (s.conns op.1) op.2 st0 hco
+  have hem := connStepAny_emit cfg (freshRes s.gen) (s.conns op.1) op.2 st0 hco
   rw [hto, h1]
   exact hem.1
 
-/-- **cannot_spoof_approved** (cannot_spoof combined with 1.): the `from` of every stanza delivered on behalf of
+/-- **cannot_spoof_approved (partial: scripts without `sameRead`)** (cannot_spoof combined with 1.): the `from` of every stanza delivered on behalf of
 `src`, after any script, is the full or bare jid of a user `u` whose credential, sent by `src` itself, the
 checker approved. -/
-theorem cannot_spoof_approved (cfg : Cfg) (ops : List (Nat × Ev)) (op : Nat × Ev)
+theorem cannot_spoof_approved_partial (cfg : Cfg) (ops : List (Nat × Ev)) (hns : NoSameRead ops) (op : Nat × Ev)
     (src dst : Nat) (st : Stanza) (h : Out.deliver src dst st ∈ (step cfg (run cfg init ops).1 op).2) :
     ∃ u, Approved cfg ops src u ∧ JidOf cfg u ((run cfg init ops).1.conns src).jid ∧
       (st.sender = ((run cfg init ops).1.conns src).jid ∨ st.sender = bareOf ((run cfg init ops).1.conns src).jid) := by
@@ -163,17 +167,18 @@ theorem cannot_spoof_approved (cfg : Cfg) (ops : List (Nat × Ev)) (op : Nat × 
     obtain ⟨h1, h2⟩ := (applyOut_stanza_origin cfg s' op.1 co _ hs').2.1 _ _ _ rfl
     rw [h2] at hco
     rw [h1]
-    exact connStep_emit_jid_ne cfg _ _ _ st hco
-  obtain ⟨u, hu, _, hj⟩ := auth_only_if_checker_approved cfg ops src hne
+    exact connStepAny_emit_jid_ne cfg _ _ _ st hco
+  obtain ⟨u, hu, _, hj⟩ := auth_only_if_checker_approved_partial cfg ops hns src hne
   exact ⟨u, hu, hj, hfrom⟩
 
-/-- **cannot_spoof, literal form.**  The `from` of every stanza delivered on behalf of `src`, after any script, is
+/-- **cannot_spoof, literal form (partial: scripts without `sameRead`).**  The `from` of every stanza delivered on behalf of `src`, after any script, is
 literally `u@domain` or `u@domain/resource` for a well-formed user `u` whose credential, sent by `src` itself, the
 checker approved (the configured domain is assumed to contain no '/'). -/
-theorem cannot_spoof_literal (cfg : Cfg) (hdom : '/' ∉ cfg.domain) (ops : List (Nat × Ev)) (op : Nat × Ev)
+theorem cannot_spoof_literal_partial (cfg : Cfg) (hdom : '/' ∉ cfg.domain) (ops : List (Nat × Ev)) (hns : NoSameRead ops)
+    (op : Nat × Ev)
     (src dst : Nat) (st : Stanza) (h : Out.deliver src dst st ∈ (step cfg (run cfg init ops).1 op).2) :
     ∃ u, Approved cfg ops src u ∧ CleanJid cfg u st.sender := by
-  obtain ⟨u0, _, _, hfrom⟩ := cannot_spoof_approved cfg ops op src dst st h
+  obtain ⟨u0, _, _, hfrom⟩ := cannot_spoof_approved_partial cfg ops hns op src dst st h
   have hne : ((run cfg init ops).1.conns src).jid ≠ [] := by
     intro he
     rcases hfrom with hf | hf
@@ -182,14 +187,14 @@ theorem cannot_spoof_literal (cfg : Cfg) (hdom : '/' ∉ cfg.domain) (ops : List
       obtain ⟨co, hco, s', hs'⟩ := applyOuts_mem cfg op.1 _ _ _ h'
       obtain ⟨h1, h2⟩ := (applyOut_stanza_origin cfg s' op.1 co _ hs').2.1 _ _ _ rfl
       rw [h2] at hco
-      exact connStep_emit_jid_ne cfg _ _ _ st hco (by rw [← h1]; exact he)
+      exact connStepAny_emit_jid_ne cfg _ _ _ st hco (by rw [← h1]; exact he)
     · have h' := h
       unfold step at h'
       obtain ⟨co, hco, s', hs'⟩ := applyOuts_mem cfg op.1 _ _ _ h'
       obtain ⟨h1, h2⟩ := (applyOut_stanza_origin cfg s' op.1 co _ hs').2.1 _ _ _ rfl
       rw [h2] at hco
-      exact connStep_emit_jid_ne cfg _ _ _ st hco (by rw [← h1]; exact he)
-  obtain ⟨u, hu, hgood, hclean⟩ := auth_only_if_checker_approved_literal cfg hdom ops src hne
+      exact connStepAny_emit_jid_ne cfg _ _ _ st hco (by rw [← h1]; exact he)
+  obtain ⟨u, hu, hgood, hclean⟩ := auth_only_if_checker_approved_literal_partial cfg hdom ops hns src hne
   have hn := not_slash_mkBare u cfg.domain hgood hdom
   have hfrom' := cannot_spoof cfg _ op src dst st h
   refine ⟨u, hu, ?_⟩
@@ -206,19 +211,35 @@ theorem cannot_spoof_literal (cfg : Cfg) (hdom : '/' ∉ cfg.domain) (ops : List
 
 /-! ## 4. the routing tables -/
 
-/-- **tables_reference_open_connections**: after any script, every entry of the two routing tables points to a
+/-- **tables_reference_open_connections (partial).**  FULL STATEMENT (false today, `C16_defect_bind_after_disconnect`):
+after any script.  PROVED for scripts without `Ev.sameRead`: after such a script, every entry of the two routing tables points to a
 connection that is still open — whatever sequence of binds, rebinds, re-logins, conflicts and disconnects of any
 number of connections produced it. -/
-theorem tables_reference_open_connections (cfg : Cfg) (ops : List (Nat × Ev)) : TablesOpen (run cfg init ops).1 :=
-  tablesOpen_run cfg ops init tablesOpen_init
+theorem tables_reference_open_connections_partial (cfg : Cfg) (ops : List (Nat × Ev)) (hns : NoSameRead ops) :
+    TablesOpen (run cfg init ops).1 :=
+  tablesOpen_run cfg ops init tablesOpen_init hns
 
-/-- **never_routes_to_closed_connection**: whoever `routeData` finds for any address, in any reachable state, is an
+/-- **never_routes_to_closed_connection (partial: scripts without `sameRead`)**: whoever `routeData` finds for any address, in any reachable state, is an
 open connection: the server never writes to a connection that is gone. -/
-theorem never_routes_to_closed_connection (cfg : Cfg) (ops : List (Nat × Ev)) (to : List Char) (found : List Nat)
+theorem never_routes_to_closed_connection_partial (cfg : Cfg) (ops : List (Nat × Ev)) (hns : NoSameRead ops)
+    (to : List Char) (found : List Nat)
     (h : route cfg (run cfg init ops).1 to = some found) (d : Nat) (hd : d ∈ found) :
     ((run cfg init ops).1.conns d).closed = false := by
   obtain ⟨e, he, rfl⟩ := route_found_in_tables cfg _ to found h d hd
-  exact tables_reference_open_connections cfg ops e he
+  exact tables_reference_open_connections_partial cfg ops hns e he
+
+/-- **Defect (C16:processing-after-disconnect).**  `tables_reference_open_connections` is false for today's code: an
+authenticated connection sends, in ONE read, an `<auth/>` with an unknown mechanism (the server answers `<failure/>`,
+closes the stream and unregisters the connection) followed by a bind request: the bind is still processed, and
+the connection — about to be deleted — is registered in the routing tables under `m@d/r`. -/
+theorem C16_defect_bind_after_disconnect :
+    ¬ (∀ (cfg : Cfg) (ops : List (Nat × Ev)), TablesOpen (run cfg init ops).1) := by
+  intro h
+  have h1 := h { domain := ['d'], check := fun u p => if u = ['m'] ∧ p = ['p'] then .ok else .bad, digestOf := fun _ => .nouser }
+    [(1, .openStream ['d']), (1, .auth false ['P', 'L', 'A', 'I', 'N'] (.creds ['m'] ['p']) false), (1, .deliver 0),
+     (1, .auth false ['X'] .empty false), (1, .sameRead (.bind ['r']))]
+    (['m', '@', 'd', '/', 'r'], 1) (Or.inl (by decide))
+  exact absurd h1 (by decide)
 
 /-! ## 5. concrete runs: the statements are about real, non-trivial scripts -/
 
@@ -336,5 +357,17 @@ example : (run demoCfg init
     [(1, .openStream ['d']), (1, .auth false plainName (.creds ['m'] ['p']) false), (1, .deliver 0), (1, .bind ['r']),
      (2, .openStream ['d']), (2, .auth false plainName (.creds ['m'] ['p']) false), (2, .deliver 0), (2, .bind ['r'])]).1.byJid
     = [(['m', '@', 'd', '/', 'r'], 2)] := by decide
+
+/-- the witness of finding C16:processing-after-disconnect in full: `<failure/>`, stream end, `disconnected`, and then
+— in the same read — the bind is accepted (`connected` after `disconnected`) and a message is routed and delivered -/
+example : (run demoCfg init
+    [(0, .openStream ['d']), (0, .auth false plainName (.creds ['m'] ['p']) false), (0, .deliver 0), (0, .bind ['v']),
+     (1, .openStream ['d']), (1, .auth false plainName (.creds ['m'] ['p']) false), (1, .deliver 0),
+     (1, .auth false ['X'] .empty false), (1, .sameRead (.bind ['r'])),
+     (1, .sameRead (.stanza { kind := .message, sender := [], to := ['m', '@', 'd', '/', 'v'] }))]).2.drop 10 =
+    [.send 1 (.failure false .invalidMechanism), .send 1 .streamEnd, .closed 1, .disconnected 1 ['m', '@', 'd'],
+     .connected 1 ['m', '@', 'd', '/', 'r'],
+     .routed 1 { kind := .message, sender := ['m', '@', 'd', '/', 'r'], to := ['m', '@', 'd', '/', 'v'] },
+     .deliver 1 0 { kind := .message, sender := ['m', '@', 'd', '/', 'r'], to := ['m', '@', 'd', '/', 'v'] }] := by decide
 
 end Qx.C16
